@@ -73,6 +73,7 @@ R.contract(f'{RN}.wait#yield', abstract=True, self_type='Obj[Runner]', params={}
         C("implies(wr_is_meta(result[1]), (result[0] in RES(self)) and (RES(self)[result[0]].meta == wr_meta(result[1])))", 'a successful task has its result in memory'),
         C("forall('Task', lambda k: implies(k != result[0], ((k in RES(self)) == (k in old(RES(self)))) and implies(k in RES(self), RES(self)[k] == old(RES(self))[k])))", 'other results untouched'),
         C("implies(not wr_is_meta(result[1]), (result[0] in RES(self)) == (result[0] in old(RES(self))))", 'a failed task gains no result'),
+        C("implies(old(RESOK(RES(self))), RESOK(RES(self)))", 'held results are the tasks\' own values', serves=('C01',)),
     ],
     frame=['self.INFLIGHT', 'self.RES'])
 
